@@ -141,7 +141,7 @@ public:
 	  \return true if SessionIDS are not equal */
 	bool operator!=(const SessionID& that)
 	{
-		return this != &that ? that._senderCompID() != _senderCompID() && that._targetCompID() != _targetCompID() : false;
+		return this != &that ? that._senderCompID() != _senderCompID() || that._targetCompID() != _targetCompID() : false;
 	}
 
 	/*! Inserter friend.
